@@ -152,6 +152,7 @@ def run(ctx):
         ctx.inconclusive('C11.R1', 'replay loop not recognised')
         return
     L = loops[0]
+    require_no_break(ctx, 'C11.R4', s, L, KEY, 'the action log', 'later moves are neither counted nor entered into the repetition list')
     if match(call('core::slice::<impl [T]>::iter', ('field', SELF, 'moves')), norm(L['source'])) is None:
         ctx.violation('C11.R4', KEY + ':replay-source', 'the replay loop does not iterate the action log: ' + sh(L['source'], 120), w)
     ELEM = ('mem', ('h', norm(L['elem'])))
